@@ -233,6 +233,12 @@ Definition K_array := Eval compute in s2l "array".
 Definition K_expref := Eval compute in s2l "expref".
 Definition K_an := Eval compute in s2l "an".
 Definition K_as := Eval compute in s2l "as".
+Definition K_aan := Eval compute in s2l "aan".
+Definition K_ans := Eval compute in s2l "ans".
+Definition K_aany := Eval compute in s2l "aany".
+Definition K_aaa := Eval compute in s2l "aaa".
+Definition K_uns := Eval compute in s2l "uns".
+Definition K_uao := Eval compute in s2l "uao".
 
 Definition parse_argtype (t : tok) : option argtype :=
   if str_eqb t K_any then Some TyAny else if str_eqb t K_null then Some TyNull
@@ -240,6 +246,11 @@ Definition parse_argtype (t : tok) : option argtype :=
   else if str_eqb t K_bool then Some TyBool else if str_eqb t K_object then Some TyObject
   else if str_eqb t K_array then Some TyArray else if str_eqb t K_expref then Some TyExpref
   else if str_eqb t K_an then Some (TyTypedArray TyNumber) else if str_eqb t K_as then Some (TyTypedArray TyString)
+  else if str_eqb t K_aan then Some (TyTypedArray (TyTypedArray TyNumber))
+  else if str_eqb t K_ans then Some (TyTypedArray (TyUnion [TyNumber; TyString]))
+  else if str_eqb t K_aany then Some (TyTypedArray TyAny) else if str_eqb t K_aaa then Some (TyTypedArray TyArray)
+  else if str_eqb t K_uns then Some (TyUnion [TyNumber; TyString])
+  else if str_eqb t K_uao then Some (TyUnion [TyTypedArray TyNumber; TyObject])
   else None.
 
 (** [-] (a plain closure) or [S t1 ... tn / v] with [v] a type or [_] *)
